@@ -1,7 +1,7 @@
 (* C11 (memory safety of the kernels' index arithmetic) -- elementwise-with-broadcast, inplace_add,
    matmul, conv2d, max_pool2d: every output element written (exactly once for the sequential
    kernels), no access outside any buffer.  Statements only; proofs in Tensor/ProofsBilinear.v. *)
-From Coq Require Import List Arith Lia Permutation Bool.
+From Coq Require Import List Arith Lia Permutation Bool Sorted ZArith.
 From PV Require Import Tensor.Kernels Tensor.Index Tensor.KernelProofs Tensor.ProofsBilinear.
 Import ListNotations.
 
@@ -91,6 +91,14 @@ Theorem C11_inplace_add_in_bounds :
 Proof. exact inplace_add_in_bounds. Qed.
 Print Assumptions C11_inplace_add_in_bounds.
 
+(* into a batched destination it walks y sequentially *)
+Theorem C11_inplace_add_sequential :
+  forall (sx sy : tshape) (V B : nat),
+    tvolume sy = V ->
+    Nat.max (tbatch sx) (tbatch sy) = B -> 1 < tbatch sy -> sequential (inplace_add sx sy) (B * V).
+Proof. exact inplace_add_sequential. Qed.
+Print Assumptions C11_inplace_add_sequential.
+
 (* matmul_fw_impl: every access of the blocked nest *)
 Theorem C11_matmul_in_bounds :
   forall (sa sb sy : tshape) (d1 d2 d3 B : nat),
@@ -111,12 +119,7 @@ Print Assumptions C11_matmul_in_bounds.
 
 (* every element of y is an output cell (and is zeroed first by the C++) *)
 Theorem C11_matmul_cells_cover :
-  forall (sa sb sy : tshape) (d1 d2 d3 B : nat),
-    tget sa 0 = d1 ->
-    tget sa 1 = d2 ->
-    tget sb 1 = d3 ->
-    tbatch sy = B ->
-    forall d : nat,
+  forall d1 d3 B d : nat,
     0 < d1 ->
     0 < d3 ->
     d < B * (d1 * d3) -> exists b i k : nat, b < B /\ i < d1 /\ k < d3 /\ d = b * (d1 * d3) + i + k * d1.
@@ -153,19 +156,7 @@ Print Assumptions C11_conv2d_in_bounds.
 
 (* every y address is visited *)
 Theorem C11_conv2d_cells_cover :
-  forall (sx sw sy : tshape) (xh xw xc wh ww yh yw yc B Vx Vw Vy : nat),
-    tget sx 0 = xh ->
-    tget sx 1 = xw ->
-    tget sx 2 = xc ->
-    tget sw 0 = wh ->
-    tget sw 1 = ww ->
-    tget sy 0 = yh ->
-    tget sy 1 = yw ->
-    tget sy 2 = yc ->
-    tbatch sy = B ->
-    tvolume sx = Vx ->
-    tvolume sw = Vw ->
-    tvolume sy = Vy ->
+  forall yh yw yc B Vy : nat,
     Vy = yh * yw * yc ->
     forall d : nat,
     0 < yh ->
